@@ -376,6 +376,7 @@ Section Writers.
     | BPause => (map (fun p => set_pause p true) ps, BOk)
     | BUnpause => (map (fun p => set_pause p false) ps, BOk)
     | BStop => let r := map stop_chan ps in (map fst r, BFiles (map snd r))
+    | BPulse _ _ => (ps, BErr)      (* handled by [cstep]: it changes the source's tables, not the publishers *)
     end.
 
   Fixpoint brun (fixed : bool) (sp : srcp) (cs : list chanp) (ps : list pub) (ops : list bop) : list pub * list bobs :=
@@ -386,4 +387,33 @@ Section Writers.
     end.
 
   Definition binit (cs : list chanp) : list pub := map (fun _ => pub_init) cs.
+
+  (* ---------------- SourceControl.ConfigurePulseLengths ---------------- *)
+  (* rpc_server.go: non-positive values are refused; unchanged lengths return nil at once; refused while
+     WritingIsActive() (writingState.Active: true from a successful START to the next STOP, i.e. exactly while
+     some channel holds a writer); then AnySource.ConfigurePulseLengths refuses npre < 3 or nsamp < npre+1 and
+     otherwise every processor takes the new lengths and drops its projectors. (Edge-multi triggering, which
+     adds a further validity test, is off on the bench.)  sp_npre/sp_nsamp are the lengths in force. *)
+  Definition pulse (sp : srcp) (cs : list chanp) (ps : list pub) (nsamp npre : Z) : (srcp * list chanp) * bobs :=
+    if (nsamp <=? 0) || (npre <=? 0) then ((sp, cs), BErr)
+    else if (sp_npre sp =? npre) && (sp_nsamp sp =? nsamp) then ((sp, cs), BOk)
+    else if existsb has_writer ps then ((sp, cs), BErr)
+    else if (npre <? 3) || (nsamp <? 1) || (nsamp <? npre + 1) then ((sp, cs), BErr)
+    else ((with_lens sp npre nsamp, map clear_proj cs), BOk).
+
+  (* one request against (tables, publishers) *)
+  Definition cstep (fixed : bool) (sp : srcp) (cs : list chanp) (ps : list pub) (o : bop)
+    : (srcp * list chanp * list pub) * bobs :=
+    match o with
+    | BPulse nsamp npre => let '(sp', cs', r) := pulse sp cs ps nsamp npre in ((sp', cs', ps), r)
+    | _ => let (ps', r) := bstep fixed sp cs ps o in ((sp, cs, ps'), r)
+    end.
+
+  Fixpoint crun (fixed : bool) (sp : srcp) (cs : list chanp) (ps : list pub) (ops : list bop)
+    : (srcp * list chanp * list pub) * list bobs :=
+    match ops with
+    | [] => ((sp, cs, ps), [])
+    | o :: rest => let '(sp1, cs1, ps1, r) := cstep fixed sp cs ps o in
+                   let (fin, rs) := crun fixed sp1 cs1 ps1 rest in (fin, r :: rs)
+    end.
 End Writers.
